@@ -104,7 +104,7 @@ ClaimVal(s, v) ==
 RegClaimsBad(s, claims, when) ==
   { "C01:" \o when \o ":reg:" \o claims[i].v.t : i \in
       { j \in 1..Len(claims) :
-          LET c == ClaimVal(s, claims[j].v) IN c.ok /\ claims[j].reg # 0 /\ s.reg[claims[j].reg] # c.w } }
+          LET c == ClaimVal(s, claims[j].v) IN c.ok /\ (IF claims[j].reg = 0 THEN 0 ELSE s.reg[claims[j].reg]) # c.w } }
 MemClaimsBad(s, claims, when) ==
   { "C01:" \o when \o ":stack:" \o claims[i].v.t : i \in
       { j \in 1..Len(claims) :
